@@ -70,7 +70,33 @@ def f_confcopy(rng, u, c):
     return "configure_file(input: 'copy%s.txt', output: 'copied%s.txt', copy: true)\n" % (u, u), {'copy%s.txt' % u: 'copy me %s\n' % u}
 
 
+DEPGEN_PY = '''#!/usr/bin/env python3
+import sys, os
+# usage: depgen.py OUT DEPFILE SRCDIR TAG : writes OUT and a multi-rule (transitive) depfile
+out, depfile, srcdir, tag = sys.argv[1:5]
+open(out, 'w').write('generated ' + tag + '\\n')
+P = lambda n: os.path.join(srcdir, n)
+rules = [(out, ['t%s_a.txt' % tag, 't%s_b.txt' % tag, 't%s_c.txt' % tag]),
+         (P('t%s_a.txt' % tag), ['t%s_a1.txt' % tag, 't%s_a2.txt' % tag, 't%s_a3.txt' % tag]),
+         (P('t%s_b.txt' % tag), ['t%s_b1.txt' % tag, 't%s_b2.txt' % tag]),
+         (P('t%s_c.txt' % tag), ['t%s_c1.txt' % tag, 't%s_c2.txt' % tag, 't%s_c3.txt' % tag, 't%s_c4.txt' % tag])]
+b = os.path.basename(out)
+rules = [(b, rules[0][1]), (os.path.join('sd', b), rules[0][1])] + rules   # meson looks the output up by its build-root-relative name
+with open(depfile, 'w') as f:
+    for tgt, deps in rules:
+        f.write('%s: %s\\n' % (tgt, ' '.join(P(d) for d in deps)))
+'''
+
+
 def f_confcmd(rng, u, c):
+    if rng.random() < 0.4:
+        # configure-time command with a multi-rule depfile: the transitive dependencies become
+        # build-definition files (build.ninja regeneration line, intro-buildsystem_files.json)
+        files = {'depgen%s.py' % u: DEPGEN_PY}
+        for n in ['a', 'b', 'c', 'a1', 'a2', 'a3', 'b1', 'b2', 'c1', 'c2', 'c3', 'c4']:
+            files['t%s_%s.txt' % (u, n)] = n + '\n'
+        return ("configure_file(output: 'extcmd_dg%s.txt', depfile: 'depgen_%s.d', command: [find_program('depgen%s.py'), '@OUTPUT@', '@DEPFILE@', "
+                "meson.current_source_dir(), '%s'])\n" % (u, u, u, u)), files
     if rng.random() < 0.5:
         return ("configure_file(output: 'cap%s.txt', command: ['sh', '-c', 'echo captured-%s'], capture: true)\n" % (u, u)), {}
     return ("configure_file(input: 'cin%s.txt', output: 'extcmd_%s.txt', command: ['cp', '@INPUT@', '@OUTPUT@'])\n" % (u, u)), {'cin%s.txt' % u: 'cmd input %s\n' % u}
